@@ -34,43 +34,66 @@ pub fn check_elf(data: &[u8]) -> Verdict {
     crate::props::c14::check_random(&crate::props::c14::RandCase { bytes: data.to_vec(), elf_magic: false })
 }
 
-/// Memory-map text: totality always; C13's invariants when the text is
-/// kernel-shaped (ascending, non-overlapping, non-empty ranges).
-pub fn check_maps(data: &[u8]) -> Verdict {
-    use procfs_core::FromRead;
-    let Ok(maps) = procfs_core::process::MemoryMaps::from_read(data) else { return Verdict::pass() };
-    let lines: Vec<(u64, u64)> = maps.iter().map(|m| m.address).collect();
-    let shaped = lines.iter().all(|(s, e)| s < e && *e <= 0x0000_7fff_ffff_f000) && lines.windows(2).all(|w| w[0].1 <= w[1].0);
-    let gate = lines.first().map(|l| l.0);
-    let out = match minidump_writer::maps_reader::MappingInfo::aggregate(maps, gate) {
-        Ok(o) => o,
-        Err(_) => return Verdict::pass(),
+/// Structure-aware decoding of fuzz bytes into a kernel-shaped memory map (the
+/// same case type as C13's proptest generator, names drawn from the byte
+/// stream), judged by the full C13 oracle.
+pub fn decode_maps(data: &[u8]) -> crate::props::c13::Case {
+    use crate::props::c13::*;
+    let mut it = data.iter().copied();
+    let mut next = || it.next();
+    let base_page = u32::from_le_bytes([next().unwrap_or(0), next().unwrap_or(0), next().unwrap_or(0), 0]);
+    let gate = match next().unwrap_or(0) % 4 {
+        0 => Gate::None,
+        1 => Gate::Elsewhere(0x1234_5000),
+        _ => Gate::LineStart((next().unwrap_or(0) as u16) << 8),
     };
-    if !shaped {
+    let mut lines = vec![];
+    while let Some(b0) = next() {
+        if lines.len() >= 40 {
+            break;
+        }
+        let gap = match b0 % 4 {
+            0 | 1 => 0,
+            2 => 1,
+            _ => next().unwrap_or(0) as u16 + 2,
+        };
+        let pages = (next().unwrap_or(0) as u16 % 8) + 1;
+        let perms = next().unwrap_or(0) % 16;
+        let off = match next().unwrap_or(0) % 4 {
+            0 => Off::Zero,
+            1 => Off::PrevEnd,
+            2 => Off::Pages(next().unwrap_or(0) as u32),
+            _ => Off::Arbitrary((next().unwrap_or(0) as u64) << 12),
+        };
+        let name = match next().unwrap_or(0) % 8 {
+            0 | 1 => Name::None,
+            2 => Name::Path(next().unwrap_or(0) % 6),
+            3 => Name::PathDeleted(next().unwrap_or(0) % 6),
+            4 => Name::Pseudo(next().unwrap_or(0) % 9),
+            _ => {
+                let n = next().unwrap_or(0) as usize % 24;
+                let raw: Vec<u8> = (0..n).filter_map(|_| next()).filter(|b| *b != b'\n' && *b != 0).collect();
+                Name::RawPath(String::from_utf8_lossy(&raw).into_owned())
+            }
+        };
+        lines.push(Line { gap, pages, perms, off, name });
+    }
+    Case { base_page, lines, gate }
+}
+
+pub fn check_maps(data: &[u8]) -> Verdict {
+    let c = decode_maps(data);
+    // paths beginning with /SYSV are folded into "shared memory key" by the parser dependency (lossy,
+    // see the C02 known finding): the statement's "same name" cannot be judged through it
+    if c.lines.iter().any(|l| matches!(&l.name, crate::props::c13::Name::RawPath(p) if p.trim_start().starts_with("SYSV") || p.trim().is_empty() || p.trim().starts_with('['))) {
         return Verdict::pass();
     }
-    // order, exact cover, hull (merge justification needs names/permissions: left to the proptest form)
-    for w in out.windows(2) {
-        if w[0].start_address + w[0].size > w[1].start_address {
-            return Verdict::viol("C13:order-or-overlap", format!("{:#x}+{:#x} vs {:#x}", w[0].start_address, w[0].size, w[1].start_address));
-        }
+    // names that parse into one of the parser's special classes by accident are outside this decoder's
+    // domain (e.g. a raw path that is exactly "SYSV..." is C02's subject, handled there as a known finding)
+    match crate::props::c13::check(&c) {
+        Verdict::Inconclusive(_) => Verdict::pass(),
+        v => v,
     }
-    for (s, e) in &lines {
-        let n = out.iter().filter(|m| m.start_address as u64 <= *s && *e <= (m.start_address + m.size) as u64).count();
-        if n != 1 {
-            return Verdict::viol(if n == 0 { "C13:line-not-covered" } else { "C13:line-in-two" }, format!("line [{s:#x},{e:#x}) is in {n} derived mappings"));
-        }
-    }
-    for m in &out {
-        let mine: Vec<&(u64, u64)> = lines.iter().filter(|(s, e)| m.start_address as u64 <= *s && *e <= (m.start_address + m.size) as u64).collect();
-        if mine.is_empty() || mine[0].0 != m.start_address as u64 || mine.last().unwrap().1 != (m.start_address + m.size) as u64 {
-            return Verdict::viol("C13:hull", format!("derived mapping [{:#x},+{:#x}) is not the hull of its lines", m.start_address, m.size));
-        }
-        if mine.windows(2).any(|w| w[0].1 != w[1].0) {
-            return Verdict::viol("C13:merged-non-contiguous", format!("derived mapping [{:#x},+{:#x}) spans a hole", m.start_address, m.size));
-        }
-    }
-    Verdict::pass()
 }
 
 pub fn check_name(data: &[u8]) -> Verdict {
